@@ -133,11 +133,11 @@ Proof. reflexivity. Qed.
 Lemma findall_spec t g l s xs :
   call_goal call g [] s = (xs, false) ->
   builtin call (s_ "findall") [t; g; l] s =
-  Some (let '(es, b) := collect (nxt s) (max_nxt s xs) t xs in unify_st {| sto := sto s; nxt := b |} l (mk_list es)).
+  Some (let '(es, b) := collect (nxt s) (nxt s) t xs in unify_st {| sto := sto s; nxt := b |} l (mk_list es)).
 Proof. intros H. change (builtin call (s_ "findall") [t; g; l] s) with
   (Some (let '(xs, e) := call_goal call g [] s in
          if e then ([], true) else
-         let '(es, b) := collect (nxt s) (max_nxt s xs) t xs in unify_st {| sto := sto s; nxt := b |} l (mk_list es))).
+         let '(es, b) := collect (nxt s) (nxt s) t xs in unify_st {| sto := sto s; nxt := b |} l (mk_list es))).
   rewrite H. reflexivity. Qed.
 
 Lemma shift_id lo d u : (forall v, occurs v u = true -> v < lo) -> shift_term lo d u = u.
@@ -173,9 +173,9 @@ Proof.
   change (builtin call (s_ "findall") [t; g; l] s) with
   (Some (let '(xs, e) := call_goal call g [] s in
          if e then ([], true) else
-         let '(es, b) := collect (nxt s) (max_nxt s xs) t xs in unify_st {| sto := sto s; nxt := b |} l (mk_list es))).
+         let '(es, b) := collect (nxt s) (nxt s) t xs in unify_st {| sto := sto s; nxt := b |} l (mk_list es))).
   intros H. inversion H; subst. destruct (call_goal call g [] s) as [xs [|]]; cbn [fst length]; [lia|].
-  destruct (collect (nxt s) (max_nxt s xs) t xs) as [es b].
+  destruct (collect (nxt s) (nxt s) t xs) as [es b].
   unfold unify_st. destruct (unify_fast _ _ _ _); cbn [fst length]; lia.
 Qed.
 End BuiltinSpec.
